@@ -502,6 +502,12 @@ class _Flattener:
                     if not (len(body) == 1 and isinstance(body[0], ast.Return)):
                         found.append(e)
                         return
+                    # a one-expression helper is normally substituted in place (expr_inline); when its arguments are not plain names
+                    # that needs assignments in front of the statement - so it is hoisted like any other helper
+                    probe = _bind(got[0], e, got[1], "probe")
+                    if probe is not None and probe[1]:
+                        found.append(e)
+                        return
             for ch in ast.iter_child_nodes(e):
                 scan(ch)
 
